@@ -95,6 +95,15 @@ pub fn catalogue(w: &World, tier: &str, seed: u64, reps: usize) -> Vec<FaultCase
                         if slots.len() >= 2 {
                             push(one(c, m.to, &m.label, m.k, What::Tree(TreeMut { path: vec![], op: MutOp::SwapElems(slots[0], slots[slots.len() - 1]) }), s ^ 77), "swap-two-labels".to_string(), &m.label, vec![m.to], false, None);
                         }
+                        if ops_cfg {
+                            // the other valid label on TWO wires at once (a row key that combines the two
+                            // operand labels by XOR would be unchanged: label ^ delta ^ label' ^ delta)
+                            for (ai, a) in slots.iter().enumerate() {
+                                for (bi, b) in slots.iter().enumerate().filter(|(bi, _)| *bi > ai) {
+                                    push(one(c, m.to, &m.label, m.k, What::TreeMulti(vec![TreeMut { path: vec![*a, 0], op: MutOp::XorDeltaOf(c) }, TreeMut { path: vec![*b, 0], op: MutOp::XorDeltaOf(c) }]), s ^ ((*a * 53 + *b) as u64)), format!("other-valid-label-on-two-wires:slots{ai}+{bi}"), &m.label, vec![m.to], true, None);
+                                }
+                            }
+                        }
                         for (pi, i) in pick(&slots, thorough || ops_cfg).into_iter().enumerate() {
                             let pc = if ops_cfg { format!("slot{pi}") } else if pi == 0 { "first".to_string() } else { "later".to_string() };
                             push(one(c, m.to, &m.label, m.k, What::Tree(TreeMut { path: vec![i, 0], op: MutOp::FlipBit }), s ^ i as u64), format!("flip-label:{pc}"), &m.label, vec![m.to], false, None);
